@@ -517,6 +517,16 @@ def patValid (kind : Kind) (p : Pat) : Bool :=
   | .regex => true
   | .unknown => false
 
+/-- bytes of a normalised name inside the property's quantifier: lower-case letters, digits, `-`, `_`, `.` -/
+def plainDomByte (c : Nat) : Bool :=
+  (48 ≤ c && c ≤ 57) || (97 ≤ c && c ≤ 122) || c == 45 || c == 95 || c == 46
+
+/-- … of a queried name: additionally upper-case letters -/
+def plainByte (c : Nat) : Bool := plainDomByte c || (65 ≤ c && c ≤ 90)
+
+/-- the names the property quantifies over -/
+def plainName (n : Str) : Bool := n.all plainByte
+
 structure AddCall where
   idx : Nat
   kind : Kind
